@@ -41,6 +41,8 @@ CONSTANTS
   FailSaves,   \* BOOLEAN: the metadata store may reject a save
   Focus,       \* BOOLEAN: while a session is being opened or closed nothing else is scheduled
   Record,      \* BOOLEAN: hist carries predictions (events, projected state) besides the labels
+  Marking,     \* BOOLEAN: record in marks the interesting situations a behaviour goes through (bin/mkwitness)
+  WindAt,      \* the wind-down may start once the schedule has this many steps (0: any time)
   Gaps,        \* subset of {"CloseDuringReopen", "LateWait"}: known findings whose interleavings are explored (see known_findings.json);
                \* without the name the model does not let dcp.close overlap the re-open of a rebalance
   Bugs         \* subset of {"F1","F7","F2","F5"}: model the code as it was BEFORE the corresponding fix: commit
@@ -48,6 +50,7 @@ CONSTANTS
 VARIABLES
   \* ---- environment
   up, slog, wire, store, info, cnt,
+  fo,          \* [VB -> Nat] : vbUUID of the server's current history branch (a fail-over starts a new one)
   \* ---- observers (per vb)
   osnap, ouuid, ocatch, oclosed, oendclosed, ocnt,
   \* ---- stream
@@ -56,17 +59,21 @@ VARIABLES
   \* ---- channels, wait goroutines, timers, locks
   tokC, tokE, waits, wpark, timers, cur, rlock, slock, cgen,
   \* ---- threads
-  mpc, dcwc, opener, opc, opened, live, foleft, clo, spc, sv, rpc, dpc, reop,
+  mpc, dcwc, opener, opc, opened, live, foleft, lpart, clo, spc, sv, rpc, dpc, reop,
+  \* ---- wind-down: the environment stops producing work, pending work completes, a last save flushes
+  wind,
+  \* ---- (witness generation only) interesting situations this behaviour went through
+  marks,
   \* ---- observable events emitted by the last step; monitor; schedule
   emitv, obs, hist
 
-envVars  == <<up, slog, wire, store, info, cnt>>
+envVars  == <<up, slog, wire, store, info, cnt, fo>>
 obsvVars == <<osnap, ouuid, ocatch, oclosed, oendclosed, ocnt>>
 strVars  == <<offs, dirty, flag, rng, open, obsNil, active, balancing, cwc, finClose, finEnd, rebalances, stopped, ctxs>>
 synVars  == <<tokC, tokE, waits, wpark, timers, cur, rlock, slock, cgen>>
-thrVars  == <<mpc, dcwc, opener, opc, opened, live, foleft, clo, spc, sv, rpc, dpc, reop>>
-vars     == <<envVars, obsvVars, strVars, synVars, thrVars, emitv, obs, hist>>
-view     == <<envVars, obsvVars, strVars, synVars, thrVars, obs>>
+thrVars  == <<mpc, dcwc, opener, opc, opened, live, foleft, lpart, clo, spc, sv, rpc, dpc, reop, wind>>
+vars     == <<envVars, obsvVars, strVars, synVars, thrVars, marks, emitv, obs, hist>>
+view     == <<envVars, obsvVars, strVars, synVars, thrVars, marks, obs>>
 
 NoSnap == <<0 - 1, 0 - 1>>
 Ev(k, q, s, e, key, old) == [k |-> k, q |-> q, s |-> s, e |-> e, key |-> key, old |-> old]
@@ -145,7 +152,7 @@ Frozen(doD, doO) ==
 
 Init ==
   /\ up = FALSE /\ slog = InitLog /\ wire = [v \in VB |-> <<>>] /\ store = [v \in VB |-> NoOff]
-  /\ info = Info0 /\ cnt = CntInit
+  /\ info = Info0 /\ cnt = CntInit /\ fo = FoUuid
   /\ osnap = [v \in VB |-> NoSnap] /\ ouuid = [v \in VB |-> 0] /\ ocatch = [v \in VB |-> 0 - 1]
   /\ oclosed = [v \in VB |-> FALSE] /\ oendclosed = [v \in VB |-> FALSE] /\ ocnt = [v \in VB |-> <<0, 0, 0>>]
   /\ offs = [v \in VB |-> NoOff] /\ dirty = {} /\ flag = FALSE /\ rng = <<1, 0>>
@@ -153,19 +160,25 @@ Init ==
   /\ finClose = FALSE /\ finEnd = FALSE /\ rebalances = 0 /\ stopped = FALSE /\ ctxs = <<>>
   /\ tokC = 0 /\ tokE = 0 /\ waits = 0 /\ wpark = <<>> /\ timers = <<>> /\ cur = 0
   /\ rlock = FALSE /\ slock = {} /\ cgen = 0
-  /\ mpc = "off" /\ dcwc = FALSE /\ opener = "none" /\ opc = "none" /\ opened = {} /\ live = {} /\ foleft = 0
+  /\ mpc = "off" /\ dcwc = FALSE /\ opener = "none" /\ opc = "none" /\ opened = {} /\ live = {} /\ foleft = 0 /\ lpart = FALSE
   /\ clo = NoClose
   /\ spc = [t \in SaveThreads |-> "idle"] /\ sv = [t \in SaveThreads |-> SaverInit]
   /\ rpc = [t \in RbThreads |-> "idle"] /\ dpc = [v \in VB |-> "idle"] /\ reop = {}
+  /\ wind = "no" /\ marks = {}
   /\ emitv = <<>> /\ obs = ObsInit /\ hist = <<>>
 
 Emit(es) == emitv' = es
 CB(n) == [ev |-> "Callback", name |-> n]
 
 \* nothing but the session being opened / closed is scheduled (prunes interleavings, see DESIGN 5)
+\* the environment still produces work (in simulation only during the first WindAt steps of a behaviour)
+EnvOK == wind = "no" /\ (WindAt = 0 \/ Len(hist) < WindAt)
 FocusBusy == Focus /\ (opc # "none" \/ clo.on)
 \* a wait goroutine that received its token runs before anything else happens (unless known finding F6 is explored)
-Prompt == "LateWait" \in Gaps \/ wpark = <<>>
+Prompt0 == "LateWait" \in Gaps \/ wpark = <<>>
+\* a thread blocked in saveLock.Lock() takes the lock the moment it is released, before anything else happens
+LockHandoff == \E t \in SaveThreads : spc[t] = "blocked" /\ sv[t].gen \notin slock
+Prompt == Prompt0 /\ ~LockHandoff
 Busy == FocusBusy \/ ~Prompt
 
 Die(es) == /\ up' = FALSE /\ mpc' = "off" /\ Emit(es \o <<[ev |-> "Died"]>>)
@@ -202,7 +215,8 @@ OpenBegin(who) ==
 
 \* Boot: the process starts; dcp.Start runs into stream.Open up to metadata.Load
 Boot ==
-  /\ ~up /\ mpc = "off" /\ cgen < MaxGen
+  /\ ~up /\ mpc = "off" /\ cgen < MaxGen /\ EnvOK
+  /\ UNCHANGED wind
   /\ up' = TRUE /\ mpc' = "starting" /\ dcwc' = FALSE
   /\ OpenBegin("main")
   /\ offs' = [v \in VB |-> NoOff] /\ dirty' = {} /\ flag' = FALSE /\ ctxs' = <<>>
@@ -210,18 +224,21 @@ Boot ==
   /\ ObsReset
   /\ tokC' = 0 /\ tokE' = 0 /\ waits' = 0 /\ wpark' = <<>> /\ timers' = <<>> /\ cur' = 0
   /\ rlock' = FALSE /\ slock' = {}
-  /\ foleft' = 0 /\ clo' = NoClose /\ live' = {}
+  /\ foleft' = 0 /\ lpart' = FALSE /\ clo' = NoClose /\ live' = {}
   /\ spc' = [t \in SaveThreads |-> "idle"] /\ sv' = [t \in SaveThreads |-> SaverInit]
   /\ rpc' = [t \in RbThreads |-> "idle"] /\ dpc' = [v \in VB |-> "idle"] /\ reop' = {}
   /\ wire' = [v \in VB |-> <<>>]
   /\ Emit(<<[ev |-> "Boot", auto |-> AutoCkpt, finite |-> Finite, member |-> info[1], total |-> info[2]]>> \o OpenBeginEvs)
-  /\ UNCHANGED <<slog, store, info, cnt>>
+  /\ UNCHANGED <<slog, fo, store, info, cnt>>
 
 \* metadata.Load returns; runs to the GetVBucketSeqNos gate; failure => panic in Load
-LoadRet(ok) ==
+LoadRet(ok, part) ==
+  /\ UNCHANGED wind
   /\ up /\ opc = "load" /\ Prompt
-  /\ (~ok => cnt.fail < MaxFail)
-  /\ UNCHANGED <<slog, wire, store, info, obsvVars, strVars, synVars, dcwc, opener, opened, live, foleft, clo, spc, sv, rpc, dpc, reop>>
+  /\ (~ok => cnt.fail < MaxFail /\ EnvOK)
+  /\ (part => ok /\ MaxFail > 0 /\ EnvOK)      \* a file-like backend: returns only the vBuckets it has a document for
+  /\ lpart' = part
+  /\ UNCHANGED <<slog, fo, wire, store, info, obsvVars, strVars, synVars, dcwc, opener, opened, live, foleft, clo, spc, sv, rpc, dpc, reop>>
   /\ IF ok THEN /\ opc' = "seqnos" /\ Emit(<<[ev |-> "SeqNosReq"]>>) /\ UNCHANGED <<up, mpc, cnt>>
      ELSE /\ opc' = "none" /\ cnt' = [cnt EXCEPT !.fail = @ + 1] /\ Die(<<[ev |-> "Fail", what |-> "Load"]>>)
 
@@ -229,12 +246,14 @@ Exists == \E w \in RangeSet : store[w] # NoOff                 \* fake backend: 
 LatestBranch == ~Exists /\ AutoReset = "latest"
 EndOf(v) == IF Finite THEN HighOf(v) ELSE MAXSEQ                \* offset.InitializeLatestSeqNo
 LoadedOff(v) ==
-  IF LatestBranch THEN Off(FoUuid[v], HighOf(v), HighOf(v), HighOf(v))
+  IF LatestBranch THEN Off(fo[v], HighOf(v), HighOf(v), HighOf(v))
   ELSE IF store[v] = NoOff THEN ZeroOff ELSE store[v]
+\* the backend returned documents for some, not all, assigned vBuckets: openStream of a missing one fails => panic
+PartialLoad == lpart /\ Exists /\ \E v \in RangeSet : store[v] = NoOff
 Ahead == ~LatestBranch /\ \E v \in RangeSet : store[v] # NoOff /\ store[v].seq > HighOf(v)
 
 \* observers are created and one goroutine per vb reaches client.OpenStream (l.251-263)
-SeqNosEv(ok) == [ev |-> "SeqNos", ok |-> ok, high |-> [v \in VB |-> HighOf(v)], latest |-> AutoReset = "latest"]
+SeqNosEv(ok) == [ev |-> "SeqNos", ok |-> ok, high |-> [v \in VB |-> HighOf(v)], latest |-> AutoReset = "latest", partial |-> lpart]
 StartOpening(pre) ==
   /\ opc' = "opening"
   /\ ObsReset /\ obsNil' = FALSE
@@ -244,14 +263,16 @@ StartOpening(pre) ==
 
 \* GetVBucketSeqNos returns; offsets are built
 SeqNosRet(ok) ==
+  /\ UNCHANGED wind
+  /\ UNCHANGED lpart
   /\ up /\ opc = "seqnos" /\ Prompt
-  /\ (~ok => cnt.fail < MaxFail)
-  /\ UNCHANGED <<slog, wire, store, info, rng, open, active, balancing, cwc, finClose, finEnd, rebalances, stopped,
+  /\ (~ok => cnt.fail < MaxFail /\ EnvOK)
+  /\ UNCHANGED <<slog, fo, wire, store, info, rng, open, active, balancing, cwc, finClose, finEnd, rebalances, stopped,
                  ctxs, synVars, dcwc, opener, opened, clo, spc, rpc, dpc, reop>>
   /\ IF ~ok THEN /\ opc' = "none" /\ cnt' = [cnt EXCEPT !.fail = @ + 1] /\ Die(<<SeqNosEv(FALSE)>>)
-                 /\ UNCHANGED <<obsvVars, offs, dirty, flag, obsNil, foleft, live, sv>>
-     ELSE IF Ahead                                     \* checkpoint beyond the vBucket's high seqno: panic
-     THEN /\ opc' = "none" /\ Die(<<SeqNosEv(TRUE)>>) /\ UNCHANGED <<cnt, obsvVars, offs, dirty, flag, obsNil, foleft, live, sv>>
+                 /\ UNCHANGED <<obsvVars, offs, dirty, flag, obsNil, foleft, lpart, live, sv>>
+     ELSE IF Ahead \/ PartialLoad                      \* checkpoint beyond the high seqno / missing checkpoint entry: panic
+     THEN /\ opc' = "none" /\ Die(<<SeqNosEv(TRUE)>>) /\ UNCHANGED <<cnt, obsvVars, offs, dirty, flag, obsNil, foleft, lpart, live, sv>>
      ELSE /\ UNCHANGED <<up, mpc, cnt>>
           /\ IF LatestBranch          \* the maps are installed only when Load returns, after the failover-log queries
              THEN /\ opc' = "folog" /\ foleft' = Cardinality(RangeSet) /\ Emit(<<SeqNosEv(TRUE)>>)
@@ -262,12 +283,14 @@ SeqNosRet(ok) ==
 
 \* GetFailOverLogs of one more vb returns (latest branch only; sequential, l.141-168)
 FoLogRet(ok) ==
+  /\ UNCHANGED wind
+  /\ UNCHANGED lpart
   /\ up /\ opc = "folog" /\ foleft > 0 /\ Prompt
-  /\ (~ok => cnt.fail < MaxFail)
-  /\ UNCHANGED <<slog, wire, store, info, rng, open, active, balancing, cwc, finClose, finEnd,
+  /\ (~ok => cnt.fail < MaxFail /\ EnvOK)
+  /\ UNCHANGED <<slog, fo, wire, store, info, rng, open, active, balancing, cwc, finClose, finEnd,
                  rebalances, stopped, ctxs, synVars, dcwc, opener, opened, clo, spc, rpc, dpc, reop>>
   /\ IF ~ok THEN /\ opc' = "none" /\ cnt' = [cnt EXCEPT !.fail = @ + 1] /\ Die(<<[ev |-> "Fail", what |-> "FoLog"]>>)
-                 /\ UNCHANGED <<obsvVars, obsNil, foleft, live, offs, dirty, flag, sv>>
+                 /\ UNCHANGED <<obsvVars, obsNil, foleft, lpart, live, offs, dirty, flag, sv>>
      ELSE /\ UNCHANGED <<up, mpc, cnt>>
           /\ foleft' = foleft - 1
           /\ IF foleft = 1
@@ -278,7 +301,7 @@ FoLogRet(ok) ==
              ELSE /\ Emit(<<>>) /\ UNCHANGED <<opc, obsvVars, obsNil, live, offs, dirty, flag, sv>>
 
 \* the last stream is open: rest of Open (l.265-271) and, for the timer goroutine, of rebalance (l.318-322)
-OpenRetEv(v, ok, rb, f) == [ev |-> "OpenRet", vb |-> v, ok |-> ok, uuid |-> IF ok THEN FoUuid[v] ELSE 0,
+OpenRetEv(v, ok, rb, f) == [ev |-> "OpenRet", vb |-> v, ok |-> ok, uuid |-> IF ok THEN fo[v] ELSE 0,
                             rollback |-> rb, f |-> f]
 FinishOpen(pre) ==
   LET sp == Spawn(tokC, tokE, waits, wpark) IN
@@ -295,12 +318,13 @@ FinishOpen(pre) ==
 
 \* the server answers the stream request of v: res = "ok" | "err" | "rb" (rolled back to r, see client.go l.600-730)
 OpenRet(v, res, r) ==
+  /\ UNCHANGED wind
   /\ up /\ opc = "opening" /\ v \in RangeSet \ opened /\ Prompt
-  /\ (res = "err" => cnt.fail < MaxFail)
-  /\ (res = "rb" => Rollbacks /\ r <= offs[v].seq /\ offs[v].seq > 0)
+  /\ (res = "err" => cnt.fail < MaxFail /\ EnvOK)
+  /\ (res = "rb" => Rollbacks /\ r <= offs[v].seq /\ offs[v].seq > 0 /\ EnvOK)
   /\ (res # "rb" => r = 0)
-  /\ UNCHANGED <<slog, store, info, osnap, oclosed, oendclosed, ocnt, offs, dirty, flag, rng, obsNil, active, cwc,
-                 finClose, finEnd, stopped, ctxs, timers, cur, slock, cgen, dcwc, foleft, clo, spc, sv, rpc, dpc, reop>>
+  /\ UNCHANGED <<slog, fo, store, info, osnap, oclosed, oendclosed, ocnt, offs, dirty, flag, rng, obsNil, active, cwc,
+                 finClose, finEnd, stopped, ctxs, timers, cur, slock, cgen, dcwc, foleft, lpart, clo, spc, sv, rpc, dpc, reop>>
   /\ IF res = "err"                                   \* openAllStreams: panic in the goroutine
      THEN /\ cnt' = [cnt EXCEPT !.fail = @ + 1] /\ opc' = "none"
           /\ Die(<<OpenRetEv(v, FALSE, FALSE, 0)>>)
@@ -308,7 +332,7 @@ OpenRet(v, res, r) ==
                          opened, live>>
      ELSE /\ UNCHANGED <<up, cnt>>
           /\ opened' = opened \cup {v} /\ live' = live \cup {v}
-          /\ ouuid' = [ouuid EXCEPT ![v] = FoUuid[v]]
+          /\ ouuid' = [ouuid EXCEPT ![v] = fo[v]]
           /\ ocatch' = [ocatch EXCEPT ![v] = IF res = "rb" THEN offs[v].seq ELSE 0 - 1]
           /\ wire' = [wire EXCEPT ![v] = WireFrom(slog[v], IF res = "rb" THEN r ELSE offs[v].seq, <<>>)]
           /\ IF opened' = RangeSet
@@ -345,11 +369,12 @@ InSnap(v, q) == osnap[v] # NoSnap /\ osnap[v][1] <= q /\ q <= osnap[v][2]
 NextEvents(v) == IF wire[v] # <<>> THEN {Head(wire[v])} ELSE Gen(v)
 
 Push(v, x, hold) ==
-  /\ up /\ ~Busy /\ v \in live /\ dpc[v] = "idle" /\ v \notin reop
+  /\ UNCHANGED wind
+  /\ up /\ ~Busy /\ EnvOK /\ v \in live /\ dpc[v] = "idle" /\ v \notin reop
   /\ x \in NextEvents(v)
   /\ (hold => Hold)
-  /\ UNCHANGED <<store, info, cnt, ouuid, oclosed, oendclosed, rng, open, obsNil, active, balancing, cwc, finClose,
-                 finEnd, rebalances, stopped, synVars, dcwc, opener, opc, opened, live, foleft, clo, spc, sv, rpc, reop>>
+  /\ UNCHANGED <<fo, store, info, cnt, ouuid, oclosed, oendclosed, rng, open, obsNil, active, balancing, cwc, finClose,
+                 finEnd, rebalances, stopped, synVars, dcwc, opener, opc, opened, live, foleft, lpart, clo, spc, sv, rpc, reop>>
   /\ IF wire[v] # <<>> THEN wire' = [wire EXCEPT ![v] = Tail(@)] /\ UNCHANGED slog
      ELSE slog' = [slog EXCEPT ![v] = Append(@, x)] /\ UNCHANGED wire
   /\ LET f == Off(ouuid[v], x.q, osnap[v][1], osnap[v][2]) IN
@@ -392,7 +417,7 @@ Push(v, x, hold) ==
                     /\ SetOffset(v, f, FALSE)
                     /\ UNCHANGED <<up, mpc, ctxs, dpc>>
                     /\ Emit(<<SentEv(v, x)>> \o TrackEvs(v, f) \o <<PushedEv(v)>>)
-               ELSE /\ ctxs' = Append(ctxs, [vb |-> v, off |-> f])
+               ELSE /\ ctxs' = Append(ctxs, [vb |-> v, off |-> f, gen |-> cgen])
                     /\ UNCHANGED <<up, mpc, offs, dirty, flag>>
                     /\ LET c0 == [ev |-> "Consume", vb |-> v, k |-> x.k, q |-> x.q, key |-> x.key, off |-> f] IN
                        IF hold   \* the consumer blocks inside ConsumeEvent: counter not yet bumped
@@ -403,18 +428,19 @@ Push(v, x, hold) ==
 
 \* ConsumeEvent returns
 ConsRet(v) ==
+  /\ UNCHANGED wind
   /\ up /\ dpc[v] # "idle" /\ Prompt
   /\ dpc' = [dpc EXCEPT ![v] = "idle"]
   /\ ocnt' = [ocnt EXCEPT ![v] = Bump(@, dpc[v])]
   /\ Emit(<<PushedEv(v)>>)
   /\ UNCHANGED <<envVars, osnap, ouuid, ocatch, oclosed, oendclosed, strVars, synVars, mpc, dcwc, opener, opc, opened,
-                 live, foleft, clo, spc, sv, rpc, reop>>
+                 live, foleft, lpart, clo, spc, sv, rpc, reop>>
 
 \* the consumer acknowledges the i-th context it was handed (stream.go l.128-131)
 Ack(i) ==
-  /\ up /\ ~Busy /\ i \in DOMAIN ctxs /\ cnt.acks < MaxAcks
+  /\ up /\ ~Busy /\ EnvOK /\ i \in DOMAIN ctxs /\ cnt.acks < MaxAcks
   /\ cnt' = [cnt EXCEPT !.acks = @ + 1]
-  /\ UNCHANGED <<up, slog, wire, store, info, obsvVars, rng, open, obsNil, active, balancing, cwc, finClose, finEnd,
+  /\ UNCHANGED <<up, slog, fo, wire, store, info, obsvVars, rng, open, obsNil, active, balancing, cwc, finClose, finEnd,
                  rebalances, stopped, ctxs, synVars, thrVars>>
   /\ LET c == ctxs[i] IN
      /\ SetOD(c.vb, c.off, TRUE)
@@ -445,11 +471,13 @@ SaveEnter(t, g) ==
 SaveEnterEvs(t) == IF EarlyReturn THEN SaveCallEvs(t) \o SaveRetEvs(t) ELSE SaveCallEvs(t)
 
 SaveStart(t) ==
-  /\ up /\ ~Busy /\ t \in Savers /\ spc[t] = "idle" /\ cnt.saves < MaxSaves /\ cgen > 0 /\ mpc = "running"
+  /\ up /\ ~Busy /\ t \in Savers /\ spc[t] = "idle" /\ cgen > 0 /\ mpc = "running"
+  /\ \/ EnvOK /\ cnt.saves < MaxSaves /\ UNCHANGED wind
+     \/ wind = "on" /\ wind' = "flushed" /\ \A u \in SaveThreads : spc[u] = "idle"     \* the one flush save of the wind-down
   /\ cnt' = [cnt EXCEPT !.saves = @ + 1]
   /\ SaveEnter(t, cgen)
   /\ Emit(SaveEnterEvs(t))
-  /\ UNCHANGED <<up, slog, wire, store, info, obsvVars, strVars, synVars, mpc, dcwc, opener, opc, opened, live, foleft,
+  /\ UNCHANGED <<up, slog, fo, wire, store, info, obsvVars, strVars, synVars, mpc, dcwc, opener, opc, opened, live, foleft, lpart,
                  clo, rpc, dpc, reop>>
 
 SaveLockBody(t) ==
@@ -467,6 +495,7 @@ SaveLockBody(t) ==
 
 \* UnmarkDirtyOffsets (the dirty set is taken over), dump of offsets and of the taken set, metadata.Save is entered
 SaveTake(t) ==
+  /\ UNCHANGED wind
   /\ up /\ spc[t] = "take" /\ Prompt
   /\ spc' = [spc EXCEPT ![t] = "storing"]
   /\ LET om == IF sv[t].olive THEN offs ELSE sv[t].osnapm
@@ -475,15 +504,16 @@ SaveTake(t) ==
         /\ Emit(<<[ev |-> "SaveBegin", t |-> t, dump |-> om, dirty |-> SortedSeq(dm)]>>)
   /\ flag' = FALSE /\ dirty' = {}
   /\ UNCHANGED <<envVars, obsvVars, offs, rng, open, obsNil, active, balancing, cwc, finClose, finEnd, rebalances, stopped, ctxs,
-                 synVars, mpc, dcwc, opener, opc, opened, live, foleft, clo, rpc, dpc, reop>>
+                 synVars, mpc, dcwc, opener, opc, opened, live, foleft, lpart, clo, rpc, dpc, reop>>
 
 \* the backend makes the checkpoint of one dirty vb durable (one write per dirty vb, any order)
 StoreWrite(t, v) ==
+  /\ UNCHANGED wind
   /\ up /\ spc[t] = "storing" /\ v \in sv[t].ddirty \ sv[t].wr /\ sv[t].dump[v] # NoOff /\ Prompt
   /\ store' = [store EXCEPT ![v] = sv[t].dump[v]]
   /\ sv' = [sv EXCEPT ![t].wr = @ \cup {v}]
   /\ Emit(<<[ev |-> "StoreWrite", t |-> t, vb |-> v, off |-> sv[t].dump[v]]>>)
-  /\ UNCHANGED <<up, slog, wire, info, cnt, obsvVars, strVars, synVars, mpc, dcwc, opener, opc, opened, live, foleft, clo,
+  /\ UNCHANGED <<up, slog, fo, wire, info, cnt, obsvVars, strVars, synVars, mpc, dcwc, opener, opc, opened, live, foleft, lpart, clo,
                  spc, rpc, dpc, reop>>
 
 Writable(t) == {v \in sv[t].ddirty : sv[t].dump[v] # NoOff}
@@ -530,9 +560,10 @@ CloseTail(who, pre) ==
 
 \* CloseStream of v returns (the server will answer with STREAM_END(closed), see End)
 CloseRet(v) ==
+  /\ UNCHANGED wind
   /\ up /\ clo.on /\ v \in clo.left /\ Prompt
-  /\ UNCHANGED <<up, slog, wire, store, info, cnt, osnap, ouuid, ocatch, oclosed, ocnt, flag, rng, active, balancing, cwc,
-                 finClose, finEnd, rebalances, stopped, ctxs, rlock, slock, cgen, dcwc, opener, opc, opened, live, foleft,
+  /\ UNCHANGED <<up, slog, fo, wire, store, info, cnt, osnap, ouuid, ocatch, oclosed, ocnt, flag, rng, active, balancing, cwc,
+                 finClose, finEnd, rebalances, stopped, ctxs, rlock, slock, cgen, dcwc, opener, opc, opened, live, foleft, lpart,
                  spc, dpc, reop>>
   /\ IF clo.left = {v}
      THEN CloseTail(clo.who, <<>>)
@@ -574,21 +605,20 @@ MainCloseBegin(pre, cancel) ==
 
 \* Close() is called
 CloseCall ==
-  /\ up /\ mpc = "running" /\ ~Busy /\ AllowClose /\ ~stopped /\ ~clo.on /\ reop = {}
+  /\ UNCHANGED wind
+  /\ up /\ mpc = "running" /\ ~Busy /\ EnvOK /\ AllowClose /\ ~stopped /\ ~clo.on /\ reop = {}
   /\ (GapReopen \/ opener # "timer")
   /\ dcwc' = TRUE
-  /\ UNCHANGED <<slog, wire, store, info, cnt, osnap, ouuid, ocatch, oendclosed, ocnt, offs, dirty, flag, rng, open, obsNil,
+  /\ UNCHANGED <<slog, fo, wire, store, info, cnt, osnap, ouuid, ocatch, oendclosed, ocnt, offs, dirty, flag, rng, open, obsNil,
                  active, balancing, finClose, finEnd, rebalances, stopped, ctxs, tokC, tokE, waits, wpark, cur, rlock, slock,
-                 cgen, opener, opc, opened, live, foleft, rpc, dpc, reop>>
+                 cgen, opener, opc, opened, live, foleft, lpart, rpc, dpc, reop>>
   /\ MainCloseBegin(<<[ev |-> "CloseCall"]>>, TRUE)
 
-\* save.prelock -> lock -> ... (see the protocol above); a saver whose flag is down returns
-SaveLock(t) ==
-  /\ up /\ ~Busy /\ spc[t] = "want" /\ sv[t].gen \notin slock
-  /\ (t = "main" => ~clo.on /\ (GapReopen \/ opener # "timer"))
-  /\ UNCHANGED <<slog, wire, store, info, cnt, osnap, ouuid, ocatch, oendclosed, ocnt, offs, rng, open, obsNil, active,
+\* the thread holds the save lock now: flag read; a saver whose flag is down returns (main: goes on with dcp.close)
+SaveAcq(t) ==
+  /\ UNCHANGED <<slog, fo, wire, store, info, cnt, osnap, ouuid, ocatch, oendclosed, ocnt, offs, rng, open, obsNil, active,
                  balancing, finClose, finEnd, rebalances, stopped, ctxs, tokC, tokE, waits, wpark, cur, rlock, cgen,
-                 dcwc, opener, opc, opened, live, foleft, rpc, dpc, reop>>
+                 dcwc, opener, opc, opened, live, foleft, lpart, rpc, dpc, reop>>
   /\ IF "F1" \notin Bugs /\ ~flag
      THEN /\ UNCHANGED <<slock, sv, dirty, flag>>
           /\ spc' = [spc EXCEPT ![t] = "idle"]
@@ -598,17 +628,36 @@ SaveLock(t) ==
      ELSE /\ SaveLockBody(t)
           /\ UNCHANGED <<up, mpc, cwc, oclosed, clo, timers>>
 
+\* save.prelock -> saveLock.Lock(): the lock is free: taken at once; it is held: the thread blocks inside Lock()
+SaveLock(t) ==
+  /\ UNCHANGED wind
+  /\ up /\ ~Busy /\ spc[t] = "want"
+  /\ (t = "main" => ~clo.on /\ (GapReopen \/ opener # "timer"))
+  /\ IF sv[t].gen \notin slock THEN SaveAcq(t)
+     ELSE /\ \A u \in SaveThreads : spc[u] # "blocked"       \* (one waiter at a time: the order among several is the runtime's)
+          /\ "F1" \notin Bugs
+          /\ spc' = [spc EXCEPT ![t] = "blocked"]
+          /\ Emit(<<>>)
+          /\ UNCHANGED <<envVars, obsvVars, strVars, synVars, mpc, dcwc, opener, opc, opened, live, foleft, lpart, clo, sv, rpc, dpc, reop>>
+
+\* ... and gets the lock as soon as its holder releases it (not a step of the schedule: it happens by itself)
+SaveAcquire(t) ==
+  /\ UNCHANGED wind
+  /\ up /\ spc[t] = "blocked" /\ sv[t].gen \notin slock /\ Prompt0
+  /\ SaveAcq(t)
+
 \* metadata.Save returns, the rest of Save runs, Save returns
 SaveRet(t, ok) ==
+  /\ UNCHANGED wind
   /\ up /\ spc[t] = "storing" /\ Prompt
   /\ (ok => sv[t].wr = Writable(t))
-  /\ (~ok => FailSaves)
+  /\ (~ok => FailSaves /\ EnvOK)
   /\ (t = "main" => ~clo.on /\ (GapReopen \/ opener # "timer"))
   /\ spc' = [spc EXCEPT ![t] = "idle"]
   /\ slock' = slock \ {sv[t].gen}
-  /\ UNCHANGED <<slog, wire, store, info, cnt, osnap, ouuid, ocatch, oendclosed, ocnt, offs, rng, open, obsNil, active,
+  /\ UNCHANGED <<slog, fo, wire, store, info, cnt, osnap, ouuid, ocatch, oendclosed, ocnt, offs, rng, open, obsNil, active,
                  balancing, finClose, finEnd, rebalances, stopped, ctxs, tokC, tokE, waits, wpark, cur, rlock, cgen,
-                 dcwc, opener, opc, opened, live, foleft, rpc, dpc, reop>>
+                 dcwc, opener, opc, opened, live, foleft, lpart, rpc, dpc, reop>>
   /\ SaveRetBody(t, ok)
   /\ LET evs == <<[ev |-> "SaveEnd", t |-> t, ok |-> ok]>> \o SaveRetEvs(t) IN
      IF t = "main" THEN MainStreamClose(evs, dcwc)
@@ -641,25 +690,27 @@ RebalanceEnter(t, ts) ==
 
 \* a membership change is published (bus) or GET /rebalance is served (api): the listener calls Rebalance
 Notify(t, i) ==
-  /\ up /\ ~Busy /\ mpc = "running" /\ t \in {"bus", "api"} /\ rpc[t] = "idle" /\ cnt.notify < MaxNotify
+  /\ UNCHANGED wind
+  /\ up /\ ~Busy /\ EnvOK /\ mpc = "running" /\ t \in {"bus", "api"} /\ rpc[t] = "idle" /\ cnt.notify < MaxNotify
   /\ i \in Infos
   /\ (t = "api" => open /\ i = info)             \* GET /rebalance: only while the stream is open, no new membership
   /\ (t = "bus" => i # info)                    \* a repeated membership is not announced (C10/C11)
   /\ info' = i
   /\ cnt' = [cnt EXCEPT !.notify = @ + 1]
-  /\ UNCHANGED <<up, slog, wire, store, obsvVars, offs, dirty, flag, rng, open, obsNil, active, cwc, finClose, finEnd,
+  /\ UNCHANGED <<up, slog, fo, wire, store, obsvVars, offs, dirty, flag, rng, open, obsNil, active, cwc, finClose, finEnd,
                  rebalances, stopped, ctxs, tokC, tokE, waits, wpark, rlock, slock, cgen, mpc, dcwc, opener, opc, opened,
-                 live, foleft, clo, spc, sv, dpc, reop>>
+                 live, foleft, lpart, clo, spc, sv, dpc, reop>>
   /\ RebalanceEnter(t, timers)
   /\ Emit(<<[ev |-> "Notify", src |-> t, member |-> i[1], total |-> i[2]]>>)
 
 \* rb.prelock -> rebalanceLock.Lock -> BeforeRebalanceStart -> Close(false) up to the CloseStream gates
 RbLock(t) ==
+  /\ UNCHANGED wind
   /\ up /\ ~Busy /\ rpc[t] = "want" /\ ~rlock /\ ~clo.on /\ mpc \in {"running", "closed"}
   /\ reop = {}                        \* not explored: a rebalance closing the stream while a re-open request is outstanding
   /\ rlock' = TRUE
-  /\ UNCHANGED <<up, slog, wire, store, info, cnt, osnap, ouuid, ocatch, oendclosed, ocnt, flag, rng, active, finClose,
-                 finEnd, rebalances, stopped, ctxs, slock, cgen, mpc, dcwc, opener, opc, opened, live, foleft, spc, sv, dpc,
+  /\ UNCHANGED <<up, slog, fo, wire, store, info, cnt, osnap, ouuid, ocatch, oendclosed, ocnt, flag, rng, active, finClose,
+                 finEnd, rebalances, stopped, ctxs, slock, cgen, mpc, dcwc, opener, opc, opened, live, foleft, lpart, spc, sv, dpc,
                  reop, offs, dirty, open, obsNil, tokC, tokE, waits, wpark>>
   /\ IF "F5" \in Bugs /\ balancing
      THEN \* l.295: already balancing: no Close, arm another re-open
@@ -679,14 +730,16 @@ RbLock(t) ==
 
 \* a Close with nothing to close continues at once (cannot happen while offsets are loaded)
 CloseEmpty ==
+  /\ UNCHANGED wind
   /\ up /\ clo.on /\ clo.left = {} /\ Prompt
-  /\ UNCHANGED <<up, slog, wire, store, info, cnt, osnap, ouuid, ocatch, oclosed, ocnt, flag, rng, active, balancing, cwc,
-                 finClose, finEnd, rebalances, stopped, ctxs, rlock, slock, cgen, dcwc, opener, opc, opened, live, foleft,
+  /\ UNCHANGED <<up, slog, fo, wire, store, info, cnt, osnap, ouuid, ocatch, oclosed, ocnt, flag, rng, active, balancing, cwc,
+                 finClose, finEnd, rebalances, stopped, ctxs, rlock, slock, cgen, dcwc, opener, opc, opened, live, foleft, lpart,
                  spc, dpc, reop>>
   /\ CloseTail(clo.who, <<>>)
 
 \* a timer fires
 TimerFire(i) ==
+  /\ UNCHANGED wind
   /\ up /\ ~Busy /\ i \in DOMAIN timers /\ timers[i].st = "armed"
   /\ IF timers[i].fn = "rebalance"
      THEN \* stream.rebalance: BeforeRebalanceEnd, Open() up to metadata.Load
@@ -696,16 +749,16 @@ TimerFire(i) ==
           /\ timers' = [timers EXCEPT ![i].st = "fired"]
           /\ OpenBegin("timer")
           /\ Emit(<<CB("BeforeRebalanceEnd")>> \o OpenBeginEvs)
-          /\ UNCHANGED <<up, slog, wire, store, info, cnt, obsvVars, offs, dirty, flag, open, obsNil, balancing, cwc,
-                         rebalances, stopped, ctxs, tokC, tokE, waits, wpark, cur, rlock, slock, mpc, dcwc, live, foleft,
+          /\ UNCHANGED <<up, slog, fo, wire, store, info, cnt, obsvVars, offs, dirty, flag, open, obsNil, balancing, cwc,
+                         rebalances, stopped, ctxs, tokC, tokE, waits, wpark, cur, rlock, slock, mpc, dcwc, live, foleft, lpart,
                          clo, spc, sv, rpc, dpc, reop>>
      ELSE \* stream.Rebalance on the timer goroutine (re-armed while a rebalance was in progress)
           /\ rpc["tmr"] = "idle"
           /\ RebalanceEnter("tmr", [timers EXCEPT ![i].st = "fired"])
           /\ Emit(<<>>)
-          /\ UNCHANGED <<up, slog, wire, store, info, cnt, obsvVars, offs, dirty, flag, rng, open, obsNil, active, cwc,
+          /\ UNCHANGED <<up, slog, fo, wire, store, info, cnt, obsvVars, offs, dirty, flag, rng, open, obsNil, active, cwc,
                          finClose, finEnd, rebalances, stopped, ctxs, tokC, tokE, waits, wpark, rlock, slock, cgen, mpc, dcwc,
-                         opener, opc, opened, live, foleft, clo, spc, sv, dpc, reop>>
+                         opener, opc, opened, live, foleft, lpart, clo, spc, sv, dpc, reop>>
 
 -----------------------------------------------------------------------------
 (* stream ends (observer.End l.273-282, stream.listenEnd l.190-220)                                   *)
@@ -713,13 +766,15 @@ EndEv(v, c) == [ev |-> "EndSent", vb |-> v, cause |-> c]
 
 \* the server ends the stream of v with cause c ("closed" follows a CloseStream; "ok" is the clean end)
 End(v, c) ==
+  /\ UNCHANGED wind
   /\ up /\ ~Busy /\ v \in live /\ dpc[v] = "idle" /\ v \notin reop /\ wire[v] = <<>>
-  /\ (c # "closed" => cnt.ends < MaxEnds /\ c \in EndCauses /\ open /\ ~clo.on /\ ~balancing /\ mpc = "running")
+  /\ (c # "closed" => EnvOK /\ cnt.ends < MaxEnds /\ c \in EndCauses /\ open /\ ~clo.on /\ ~balancing /\ mpc = "running")
   /\ (c = "closed" => (clo.on /\ v \notin clo.left) \/ (obsNil /\ ~open))
   /\ cnt' = [cnt EXCEPT !.ends = IF c = "closed" THEN @ ELSE @ + 1]
   /\ live' = live \ {v}
+  /\ fo' = [fo EXCEPT ![v] = IF c = "statechanged" THEN @ + 100 ELSE @]      \* a fail-over: the next stream is on a new branch
   /\ UNCHANGED <<up, slog, wire, store, info, obsvVars, offs, dirty, flag, rng, open, obsNil, balancing, cwc, finClose,
-                 finEnd, rebalances, stopped, ctxs, timers, cur, rlock, slock, cgen, mpc, dcwc, opener, opc, opened, foleft,
+                 finEnd, rebalances, stopped, ctxs, timers, cur, rlock, slock, cgen, mpc, dcwc, opener, opc, opened, foleft, lpart,
                  clo, spc, sv, rpc, dpc>>
   /\ IF oendclosed[v] \/ obsNil
      THEN /\ Emit(<<EndEv(v, c)>>) /\ UNCHANGED <<active, tokC, tokE, waits, wpark, reop>>
@@ -737,28 +792,30 @@ End(v, c) ==
 
 \* the re-open request of v is answered
 ReopenRet(v, ok) ==
+  /\ UNCHANGED wind
   /\ up /\ v \in reop /\ ok /\ Prompt
   \* failing re-opens (1 s back-off, panic after 5) are explored by the C15 fault driver
   /\ reop' = reop \ {v}
   /\ live' = live \cup {v}
-  /\ ouuid' = [ouuid EXCEPT ![v] = FoUuid[v]]
+  /\ ouuid' = [ouuid EXCEPT ![v] = fo[v]]
   /\ wire' = [wire EXCEPT ![v] = WireFrom(slog[v], offs[v].seq, <<>>)]
   /\ Emit(<<OpenRetEv(v, TRUE, FALSE, 0)>>)
-  /\ UNCHANGED <<up, slog, store, info, cnt, osnap, ocatch, oclosed, oendclosed, ocnt, strVars, synVars, mpc, dcwc, opener,
-                 opc, opened, foleft, clo, spc, sv, rpc, dpc>>
+  /\ UNCHANGED <<up, slog, fo, store, info, cnt, osnap, ocatch, oclosed, oendclosed, ocnt, strVars, synVars, mpc, dcwc, opener,
+                 opc, opened, foleft, lpart, clo, spc, sv, rpc, dpc>>
 
 \* a wait goroutine parked at wait.close / wait.end finishes (l.403-411); when it closes the stop
 \* channel the main thread leaves its select and runs dcp.close up to its first gate
 RECURSIVE RemoveFirst(_, _)
 RemoveFirst(sq, k) == IF sq = <<>> THEN <<>> ELSE IF Head(sq) = k THEN Tail(sq) ELSE <<Head(sq)>> \o RemoveFirst(Tail(sq), k)
 WaitFin(k) ==
-  /\ up /\ k \in SeqToSet(wpark) /\ ~FocusBusy
+  /\ UNCHANGED wind
+  /\ up /\ k \in SeqToSet(wpark) /\ ~FocusBusy /\ ~LockHandoff
   /\ wpark' = RemoveFirst(wpark, k)
   /\ finClose' = (IF k = "close" THEN TRUE ELSE finClose)
   /\ finEnd' = (IF k = "end" THEN TRUE ELSE finEnd)
-  /\ UNCHANGED <<slog, wire, store, info, cnt, osnap, ouuid, ocatch, oendclosed, ocnt, offs, dirty, flag, rng, open, obsNil,
+  /\ UNCHANGED <<slog, fo, wire, store, info, cnt, osnap, ouuid, ocatch, oendclosed, ocnt, offs, dirty, flag, rng, open, obsNil,
                  active, balancing, rebalances, ctxs, tokC, tokE, waits, cur, rlock, slock, cgen, dcwc, opener, opc,
-                 opened, live, foleft, rpc, dpc, reop>>
+                 opened, live, foleft, lpart, rpc, dpc, reop>>
   /\ IF balancing
      THEN /\ Emit(<<>>) /\ UNCHANGED <<up, mpc, stopped, spc, sv, cwc, oclosed, clo, timers>>
      ELSE IF stopped                                 \* close of a closed channel
@@ -770,74 +827,20 @@ WaitFin(k) ==
 
 -----------------------------------------------------------------------------
 Crash ==
-  /\ up /\ cnt.crash < MaxCrash /\ mpc = "running" /\ ~Busy
+  /\ UNCHANGED wind
+  /\ up /\ EnvOK /\ cnt.crash < MaxCrash /\ mpc = "running" /\ ~Busy
   /\ up' = FALSE /\ mpc' = "off" /\ cnt' = [cnt EXCEPT !.crash = @ + 1]
   /\ Emit(<<[ev |-> "Crash"]>>)
-  /\ UNCHANGED <<slog, wire, store, info, obsvVars, strVars, synVars, dcwc, opener, opc, opened, live, foleft, clo, spc, sv,
+  /\ UNCHANGED <<slog, fo, wire, store, info, obsvVars, strVars, synVars, dcwc, opener, opc, opened, live, foleft, lpart, clo, spc, sv,
                  rpc, dpc, reop>>
 
 \* the bucket is flushed / recreated while the process is down: the history of v is gone, its checkpoint is not
 Flush(v) ==
-  /\ ~up /\ mpc = "off" /\ cnt.fail < MaxFail /\ slog[v] # <<>>
+  /\ ~up /\ EnvOK /\ mpc = "off" /\ cnt.fail < MaxFail /\ slog[v] # <<>>
   /\ slog' = [slog EXCEPT ![v] = <<>>]
   /\ cnt' = [cnt EXCEPT !.fail = @ + 1]
   /\ Emit(<<>>)
-  /\ UNCHANGED <<up, wire, store, info, obsvVars, strVars, synVars, thrVars>>
-
------------------------------------------------------------------------------
-Step(l) ==
-  CASE l.a = "Boot"       -> Boot
-    [] l.a = "LoadRet"    -> LoadRet(l.ok)
-    [] l.a = "SeqNosRet"  -> SeqNosRet(l.ok)
-    [] l.a = "FoLogRet"   -> FoLogRet(l.ok)
-    [] l.a = "OpenRet"    -> OpenRet(l.vb, l.res, l.r)
-    [] l.a = "Push"       -> Push(l.vb, l.x, l.hold)
-    [] l.a = "ConsRet"    -> ConsRet(l.vb)
-    [] l.a = "Ack"        -> Ack(l.i)
-    [] l.a = "SaveStart"  -> SaveStart(l.t)
-    [] l.a = "SaveLock"   -> SaveLock(l.t)
-    [] l.a = "SaveTake"   -> SaveTake(l.t)
-    [] l.a = "StoreWrite" -> StoreWrite(l.t, l.vb)
-    [] l.a = "SaveRet"    -> SaveRet(l.t, l.ok)
-    [] l.a = "CloseCall"  -> CloseCall
-    [] l.a = "CloseRet"   -> CloseRet(l.vb)
-    [] l.a = "CloseEmpty" -> CloseEmpty
-    [] l.a = "Notify"     -> Notify(l.t, <<l.member, l.total>>)
-    [] l.a = "RbLock"     -> RbLock(l.t)
-    [] l.a = "TimerFire"  -> TimerFire(l.i)
-    [] l.a = "End"        -> End(l.vb, l.cause)
-    [] l.a = "ReopenRet"  -> ReopenRet(l.vb, l.ok)
-    [] l.a = "WaitFin"    -> WaitFin(l.k)
-    [] l.a = "Crash"      -> Crash
-    [] l.a = "Flush"      -> Flush(l.vb)
-
-MaxCtx == 6
-MaxTimers == 4
-Life == MaxNotify > 0 \/ MaxEnds > 0 \/ AllowClose
-Labels ==
-  [a : {"Boot"}]
-  \cup (IF MaxCrash > 0 THEN [a : {"Crash"}] ELSE {})
-  \cup (IF MaxCrash > 0 /\ MaxFail > 0 THEN [a : {"Flush"}, vb : VB] ELSE {})
-  \cup [a : {"LoadRet", "SeqNosRet"}, ok : IF MaxFail > 0 THEN BOOLEAN ELSE {TRUE}]
-  \cup (IF AutoReset = "latest" THEN [a : {"FoLogRet"}, ok : IF MaxFail > 0 THEN BOOLEAN ELSE {TRUE}] ELSE {})
-  \cup [a : {"OpenRet"}, vb : VB, res : {"ok"}, r : {0}]
-  \cup (IF MaxFail > 0 THEN [a : {"OpenRet"}, vb : VB, res : {"err"}, r : {0}] ELSE {})
-  \cup (IF Rollbacks THEN [a : {"OpenRet"}, vb : VB, res : {"rb"}, r : 0..MaxSeq] ELSE {})
-  \cup (IF Hold THEN [a : {"ConsRet"}, vb : VB] ELSE {})
-  \cup (IF MaxAcks > 0 THEN [a : {"Ack"}, i : 1..MaxCtx] ELSE {})
-  \cup [a : {"SaveStart"}, t : Savers]
-  \cup [a : {"SaveLock", "SaveTake"}, t : IF AutoCkpt THEN SaveThreads ELSE Savers]
-  \cup [a : {"StoreWrite"}, t : IF AutoCkpt THEN SaveThreads ELSE Savers, vb : VB]
-  \cup [a : {"SaveRet"}, t : IF AutoCkpt THEN SaveThreads ELSE Savers, ok : IF FailSaves THEN BOOLEAN ELSE {TRUE}]
-  \cup (IF Life THEN [a : {"CloseEmpty"}] \cup [a : {"WaitFin"}, k : {"close", "end"}] \cup [a : {"CloseRet"}, vb : VB]
-                     \cup [a : {"End"}, vb : VB, cause : EndCauses \cup {"closed"}] ELSE {})
-  \cup (IF AllowClose THEN [a : {"CloseCall"}] ELSE {})
-  \cup (IF MaxNotify > 0 THEN [a : {"Notify"}, t : {"bus", "api"}, member : 1..NVB, total : 1..NVB]
-                              \cup [a : {"RbLock"}, t : RbThreads] \cup [a : {"TimerFire"}, i : 1..MaxTimers] ELSE {})
-  \cup (IF MaxEnds > 0 THEN [a : {"ReopenRet"}, vb : VB, ok : {TRUE}] ELSE {})
-
-\* API-visible state, sampled after every step while the process is up (Stream.GetOffsets, IsOpen)
-StateEvs == IF up' THEN <<[ev |-> "State", offsets |-> offs', open |-> open', active |-> active']>> ELSE <<>>
+  /\ UNCHANGED <<up, fo, wire, store, info, obsvVars, strVars, synVars, thrVars>>
 
 \* where every thread is parked after the step ("thread@gate", library goroutines by gate name)
 OpenerAt(g) == IF opener = "main" THEN "main@" \o g ELSE "lib:" \o g
@@ -860,6 +863,81 @@ Parked ==
   \cup (IF Len(wpark) >= 2 THEN {IF wpark[2] = wpark[1] THEN "lib:wait." \o wpark[2] \o "#2" ELSE "lib:wait." \o wpark[2]}
         ELSE {})
 
+\* the wind-down begins: from now on the environment produces no new work (no events, acknowledgements, notifications,
+\* ends, failures, Close() or crashes); what is pending completes; one last save flushes
+StartWind ==
+  /\ up /\ Prompt /\ wind = "no" /\ Len(hist) >= WindAt /\ mpc \in {"running", "closed", "finalsave", "closing"}
+  /\ wind' = "on" /\ Emit(<<>>)
+  /\ UNCHANGED <<envVars, obsvVars, strVars, synVars, mpc, dcwc, opener, opc, opened, live, foleft, lpart, clo, spc, sv, rpc, dpc, reop>>
+
+\* nothing is parked anywhere, no timer is armed: the run is over; the monitors check the end-of-run obligations
+ArmedTimers == {i \in DOMAIN timers : timers[i].st = "armed"}
+Quiesce ==
+  /\ up /\ Prompt /\ wind \in {"on", "flushed"} /\ Parked = {} /\ ArmedTimers = {}
+  /\ \A t \in SaveThreads : spc[t] = "idle"
+  /\ (wind = "on" => mpc # "running")          \* a running client first does its flush save
+  /\ wind' = "done" /\ Emit(<<[ev |-> "Quiesced"]>>)
+  /\ UNCHANGED <<envVars, obsvVars, strVars, synVars, mpc, dcwc, opener, opc, opened, live, foleft, lpart, clo, spc, sv, rpc, dpc, reop>>
+
+-----------------------------------------------------------------------------
+Step(l) ==
+  CASE l.a = "Boot"       -> Boot
+    [] l.a = "LoadRet"    -> LoadRet(l.ok, l.part)
+    [] l.a = "SeqNosRet"  -> SeqNosRet(l.ok)
+    [] l.a = "FoLogRet"   -> FoLogRet(l.ok)
+    [] l.a = "OpenRet"    -> OpenRet(l.vb, l.res, l.r)
+    [] l.a = "Push"       -> Push(l.vb, l.x, l.hold)
+    [] l.a = "ConsRet"    -> ConsRet(l.vb)
+    [] l.a = "Ack"        -> Ack(l.i)
+    [] l.a = "SaveStart"  -> SaveStart(l.t)
+    [] l.a = "SaveLock"   -> SaveLock(l.t)
+    [] l.a = "SaveAcquire" -> SaveAcquire(l.t)
+    [] l.a = "SaveTake"   -> SaveTake(l.t)
+    [] l.a = "StoreWrite" -> StoreWrite(l.t, l.vb)
+    [] l.a = "SaveRet"    -> SaveRet(l.t, l.ok)
+    [] l.a = "CloseCall"  -> CloseCall
+    [] l.a = "CloseRet"   -> CloseRet(l.vb)
+    [] l.a = "CloseEmpty" -> CloseEmpty
+    [] l.a = "Notify"     -> Notify(l.t, <<l.member, l.total>>)
+    [] l.a = "RbLock"     -> RbLock(l.t)
+    [] l.a = "TimerFire"  -> TimerFire(l.i)
+    [] l.a = "End"        -> End(l.vb, l.cause)
+    [] l.a = "ReopenRet"  -> ReopenRet(l.vb, l.ok)
+    [] l.a = "WaitFin"    -> WaitFin(l.k)
+    [] l.a = "Crash"      -> Crash
+    [] l.a = "Flush"      -> Flush(l.vb)
+    [] l.a = "StartWind"  -> StartWind
+    [] l.a = "Quiesce"    -> Quiesce
+
+MaxCtx == 6
+MaxTimers == 4
+Life == MaxNotify > 0 \/ MaxEnds > 0 \/ AllowClose
+Labels ==
+  [a : {"Boot", "StartWind", "Quiesce"}]
+  \cup (IF MaxCrash > 0 THEN [a : {"Crash"}] ELSE {})
+  \cup (IF MaxCrash > 0 /\ MaxFail > 0 THEN [a : {"Flush"}, vb : VB] ELSE {})
+  \cup [a : {"LoadRet"}, ok : IF MaxFail > 0 THEN BOOLEAN ELSE {TRUE}, part : IF MaxFail > 0 THEN BOOLEAN ELSE {FALSE}]
+  \cup [a : {"SeqNosRet"}, ok : IF MaxFail > 0 THEN BOOLEAN ELSE {TRUE}]
+  \cup (IF AutoReset = "latest" THEN [a : {"FoLogRet"}, ok : IF MaxFail > 0 THEN BOOLEAN ELSE {TRUE}] ELSE {})
+  \cup [a : {"OpenRet"}, vb : VB, res : {"ok"}, r : {0}]
+  \cup (IF MaxFail > 0 THEN [a : {"OpenRet"}, vb : VB, res : {"err"}, r : {0}] ELSE {})
+  \cup (IF Rollbacks THEN [a : {"OpenRet"}, vb : VB, res : {"rb"}, r : 0..MaxSeq] ELSE {})
+  \cup (IF Hold THEN [a : {"ConsRet"}, vb : VB] ELSE {})
+  \cup (IF MaxAcks > 0 THEN [a : {"Ack"}, i : 1..MaxCtx] ELSE {})
+  \cup [a : {"SaveStart"}, t : Savers]
+  \cup [a : {"SaveLock", "SaveTake", "SaveAcquire"}, t : IF AutoCkpt THEN SaveThreads ELSE Savers]
+  \cup [a : {"StoreWrite"}, t : IF AutoCkpt THEN SaveThreads ELSE Savers, vb : VB]
+  \cup [a : {"SaveRet"}, t : IF AutoCkpt THEN SaveThreads ELSE Savers, ok : IF FailSaves THEN BOOLEAN ELSE {TRUE}]
+  \cup (IF Life THEN [a : {"CloseEmpty"}] \cup [a : {"WaitFin"}, k : {"close", "end"}] \cup [a : {"CloseRet"}, vb : VB]
+                     \cup [a : {"End"}, vb : VB, cause : EndCauses \cup {"closed"}] ELSE {})
+  \cup (IF AllowClose THEN [a : {"CloseCall"}] ELSE {})
+  \cup (IF MaxNotify > 0 THEN [a : {"Notify"}, t : {"bus", "api"}, member : 1..NVB, total : 1..NVB]
+                              \cup [a : {"RbLock"}, t : RbThreads] \cup [a : {"TimerFire"}, i : 1..MaxTimers] ELSE {})
+  \cup (IF MaxEnds > 0 THEN [a : {"ReopenRet"}, vb : VB, ok : {TRUE}] ELSE {})
+
+\* API-visible state, sampled after every step while the process is up (Stream.GetOffsets, IsOpen)
+StateEvs == IF up' THEN <<[ev |-> "State", offsets |-> offs', open |-> open', active |-> active']>> ELSE <<>>
+
 \* projection of the implementation state that the driver compares after every step
 Post == [offsets |-> offs, dirty |-> SortedSeq(dirty), flag |-> flag, store |-> store, open |-> open,
          parked |-> IF up THEN Parked ELSE {}, up |-> up, active |-> active, rebalances |-> rebalances,
@@ -869,8 +947,54 @@ Post == [offsets |-> offs, dirty |-> SortedSeq(dirty), flag |-> flag, store |-> 
 PushLabels == {[a |-> "Push", vb |-> v, x |-> x, hold |-> h] : v \in live, x \in UNION {NextEvents(w) : w \in live},
                                                                h \in (IF Hold THEN BOOLEAN ELSE {FALSE})}
 
+\* situations worth a regression schedule: the step with label l is taken in the current state
+NewMarks(l) ==
+  LET a == l.a
+      storing == \E t \in SaveThreads : spc[t] = "storing"
+      taking == \E t \in SaveThreads : spc[t] = "take"
+      armed == cur > 0 /\ timers[cur].st = "armed"
+  IN
+  (IF a = "Notify" /\ opener = "timer" THEN {"notifyDuringReopen"} ELSE {})
+  \cup (IF a = "Notify" /\ clo.on THEN {"notifyDuringClose"} ELSE {})
+  \cup (IF a = "Notify" /\ balancing /\ armed /\ ~clo.on /\ opc = "none" THEN {"notifyDuringDelay"} ELSE {})
+  \cup (IF a = "Notify" /\ l.t = "api" /\ rpc["bus"] = "want" THEN {"apiWhileBusWaits"} ELSE {})
+  \cup (IF a = "Ack" /\ storing THEN {"ackDuringStore"} ELSE {})
+  \cup (IF a = "Ack" /\ taking THEN {"ackAtTake"} ELSE {})
+  \cup (IF a = "Ack" /\ l.i \in DOMAIN ctxs /\ offs[ctxs[l.i].vb] # NoOff /\ offs[ctxs[l.i].vb].seq > ctxs[l.i].off.seq
+         THEN {"ackBelowPosition"} ELSE {})
+  \cup (IF a = "Ack" /\ l.i \in DOMAIN ctxs /\ ~InRange(ctxs[l.i].vb) THEN {"ackOutOfRange"} ELSE {})
+  \cup (IF a = "Ack" /\ l.i \in DOMAIN ctxs /\ ctxs[l.i].gen < cgen /\ open THEN {"staleAckNewSession"} ELSE {})
+  \cup (IF a = "Ack" /\ l.i \in DOMAIN ctxs /\ ctxs[l.i].off.uuid # ouuid[ctxs[l.i].vb] /\ open /\ ctxs[l.i].gen = cgen
+         THEN {"ackAcrossBranch"} ELSE {})
+  \cup (IF a = "Push" /\ l.x.k \in {"sys", "adv"} /\ (storing \/ taking) THEN {"nonDocDuringSave"} ELSE {})
+  \cup (IF a = "Push" /\ IsDoc(l.x) /\ ocatch[l.vb] = l.x.q /\ osnap[l.vb] # NoSnap /\ osnap[l.vb][1] = l.x.q THEN {"rbBoundary"} ELSE {})
+  \cup (IF a = "Push" /\ IsDoc(l.x) /\ ocatch[l.vb] >= 0 /\ l.x.q > ocatch[l.vb] THEN {"rbPast"} ELSE {})
+  \cup (IF a = "Push" /\ IsDoc(l.x) /\ l.x.old THEN {"oldEvent"} ELSE {})
+  \cup (IF a = "Push" /\ IsDoc(l.x) /\ Reserved(l.x) THEN {"reservedKey"} ELSE {})
+  \cup (IF a = "Push" /\ l.x.k = "mark" /\ osnap[l.vb] # NoSnap /\ \E i \in DOMAIN ctxs : ctxs[i].vb = l.vb /\ ctxs[i].gen = cgen
+         THEN {"markerAfterDelivery"} ELSE {})
+  \cup (IF a = "SaveRet" /\ ~l.ok THEN {"failedSave"} ELSE {})
+  \cup (IF a = "Crash" /\ \E t \in SaveThreads : spc[t] = "storing" /\ sv[t].wr # {} /\ sv[t].wr # Writable(t) THEN {"crashMidSave"} ELSE {})
+  \cup (IF a = "CloseCall" /\ obsNil /\ balancing THEN {"closeDuringDelay"} ELSE {})
+  \cup (IF a = "CloseCall" /\ storing /\ flag THEN {"closeMidSave"} ELSE {})      \* unsaved progress outside the in-flight dump
+  \cup (IF a = "CloseCall" /\ \E v \in VB : dpc[v] # "idle" THEN {"closeMidDelivery"} ELSE {})
+  \cup (IF a = "CloseCall" /\ flag THEN {"closeWithUnsaved"} ELSE {})
+  \cup (IF a = "End" /\ l.cause \in TransientCauses /\ offs[l.vb] # NoOff /\ offs[l.vb].seq > 0 THEN {"transientAfterProgress"} ELSE {})
+  \cup (IF a = "End" /\ l.cause \notin TransientCauses /\ l.cause # "closed" /\ reop # {} THEN {"finalEndWhileReopening"} ELSE {})
+  \cup (IF a = "OpenRet" /\ l.res = "rb" THEN {"rollback"} ELSE {})
+  \cup (IF a = "TimerFire" /\ l.i \in DOMAIN timers /\ timers[l.i].fn = "Rebalance" THEN {"rearmedTimer"} ELSE {})
+  \cup (IF a = "Boot" /\ \E v \in VB : store[v] # NoOff /\ store[v].ss < store[v].seq /\ store[v].seq < store[v].se THEN {"resumeMidSnapshot"} ELSE {})
+  \cup (IF a = "LoadRet" /\ l.part /\ Exists /\ \E v \in RangeSet : store[v] = NoOff THEN {"partialLoad"} ELSE {})
+  \cup (IF a = "LoadRet" /\ ~l.ok THEN {"loadFails"} ELSE {})
+  \cup (IF a = "SeqNosRet" /\ ~l.ok THEN {"seqnosFails"} ELSE {})
+  \cup (IF a = "SeqNosRet" /\ l.ok /\ Ahead THEN {"checkpointAhead"} ELSE {})
+  \cup (IF a = "FoLogRet" /\ ~l.ok THEN {"failoverLogFails"} ELSE {})
+  \cup (IF a = "OpenRet" /\ l.res = "err" /\ opened # {} THEN {"secondOpenFails"} ELSE {})
+  \cup (IF a = "OpenRet" /\ l.res = "err" /\ opener = "timer" THEN {"reopenOpenFails"} ELSE {})
+
 Next == \E l \in Labels \cup PushLabels :
           /\ Step(l)
+          /\ marks' = IF Marking THEN marks \cup NewMarks(l) ELSE marks
           /\ obs' = Fold(obs, emitv' \o StateEvs)
           /\ hist' = IF Record THEN Append(hist, [l |-> l, evs |-> emitv' \o StateEvs, post |-> Post'])
                                ELSE Append(hist, l)
